@@ -116,8 +116,16 @@ bool linepart::array::apply(const transform &tr, int dim, span<const double> src
 	linepart *base = begin(), old = *base;
 	
 	while (pos < oldlen) {
+		// visible points end with the data of this dimension
+		if (len < old.usr) {
+			old.usr = (old._cut && len < 2) ? 0 : len;
+			old._trim = 0;
+			if (!old.usr) {
+				old._cut = 0;
+			}
+		}
 		// no visible points
-		if (!old.usr || !len) {
+		if (!old.usr) {
 			pt = old;
 			// skip invisible data
 			if (len > pt.raw) {
@@ -133,9 +141,6 @@ bool linepart::array::apply(const transform &tr, int dim, span<const double> src
 				old = base[pos];
 			}
 		} else {
-			if (len < old.usr) {
-				old.usr = len;
-			}
 			pt = tr.part(dim, val, old.usr);
 			// minimize leading line
 			if (pt.usr && old._cut > pt._cut) {
